@@ -137,6 +137,8 @@ J gen_transport_fault(Rng &g, bool call_indexed = true)
 		f["on"] = "send";
 		f["k"] = (long long)g.range(1, 2);
 		f["kind"] = g.pick(std::vector<const char *>{"err", "intr", "wouldblock"});
+		if (f.gets("kind") == "err" && g.chance(500))
+			f["sticky"] = 1; // the connection is dead for writing from then on
 	} else {
 		f["kind"] = "cut";
 		f["b"] = (long long)g.below(100000);
